@@ -37,7 +37,7 @@ def squash(
 ) -> OptimizedChoice | None:
     """Squash a choice expression into an optimized regular expression."""
     choices = _collect(exprs)
-    if choices is None:
+    if choices is None or _reorders(choices):
         return None
     return new_expr.update(*choices)
 
@@ -70,3 +70,41 @@ def _collect(exprs: list[Expression]) -> list[ChoiceChoice] | None:
             return None
 
     return choices
+
+
+def _reorders(choices: list[ChoiceChoice]) -> bool:
+    """True if the optimized pattern would not try `choices` in order.
+
+    The pattern tries longer literals first and single characters last. That
+    only changes the outcome if a longer literal follows a single character
+    alternative that matches the literal's first character.
+    """
+    singles: list[ChoiceChoice] = []
+    for choice in choices:
+        if isinstance(choice, ChoiceLiteral) and len(choice.value) != 1:
+            if not choice.value:
+                if singles:
+                    return True
+                continue
+            first = choice.value[0]
+            starts = (
+                {first, first.lower(), first.upper()}
+                if choice.case == ChoiceCase.INSENSITIVE
+                else {first}
+            )
+            if any(_matches(single, ch) for single in singles for ch in starts):
+                return True
+        else:
+            singles.append(choice)
+    return False
+
+
+def _matches(choice: ChoiceChoice, ch: str) -> bool:
+    """True if single character alternative `choice` matches `ch`."""
+    if isinstance(choice, ChoiceLiteral):
+        if choice.case == ChoiceCase.INSENSITIVE:
+            return ch in (choice.value, choice.value.lower(), choice.value.upper())
+        return ch == choice.value
+    if isinstance(choice, ChoiceRange):
+        return min(choice.start, choice.end) <= ch <= max(choice.start, choice.end)
+    return bool(choice.expression.regex.match(ch))  # type: ignore[attr-defined]
